@@ -1,9 +1,10 @@
 """Unit K — C14 (keyword half): field.rs::rename_keywords is total over the edition-2024 keyword set."""
 from __future__ import annotations
 import json
+import re
 import os
 from ..core import Unit, VERIF
-from ..splice import Out, splice_fn
+from ..splice import Out, splice_fn, AnchorLost
 from .gen import Gen, SRC, sections, spec_section
 from .r import HEAD, TAIL, prelude
 
@@ -26,12 +27,14 @@ class UnitK(Unit):
     def build(self, repo, probe=False):
         out = Out()
         G = Gen(repo)
+        self.lost = []
         out.spec(HEAD)
-        self._trusted = prelude(out, ['ax-str-ext'])
+        self._trusted = prelude(out, ['ax-str-ext', 'stdspec-option-combinators', 'stdspec-string-eq-str', 'stdspec-char-class', 'stdspec-present-chars'])
         self._trusted += sections(out, 'dep_misc.rs', ['inflector'])
         out.spec('pub mod zeep {\n    use vstd::prelude::*;\n    use crate::inflector::cases::{pascalcase::to_pascal_case, snakecase::{to_snake_case, snake}};\n'
-                 '    broadcast use crate::ax::str_ext;\n')
+                 '    broadcast use crate::ax::str_ext;\n    use crate::stdspec::{ascii_alnum, ascii_digit, chars_filter_collect, chars_filter_take_collect, first_char, fmt_prefix};\n')
         out.spec(spec_section('K_spec.rs', 'keywords-spec'))
+        out.spec(spec_section('K_spec.rs', 'ident-spec'))
         rel = 'model/field.rs'
         fn = G.top(rel, 'fn', 'rename_keywords')
         lits = sorted(set(string_literals(fn)) | {'"%s"' % w for w in KW['strict'] + KW['reserved'] + KW['weak']} | {'"r#"'})
@@ -42,14 +45,104 @@ class UnitK(Unit):
                            ('weak-keyword-stays-legal', 'weak_kw(field_name@) ==> res@ == field_name@ || res@ == "r#"@ + field_name@'),
                            ('keyword-is-respelled', 'must_escape(field_name@) ==> res@ != field_name@ && !must_escape(res@)'),
                            ('result-never-a-keyword', '!must_escape(res@)'),
-                           ('raw-form-only-if-legal', 'must_escape(field_name@) && res@ == "r#"@ + field_name@ ==> !not_raw_able(field_name@)')],
-                  origin={k: 'property' for k in ('result-never-a-keyword', 'non-keyword-unchanged', 'weak-keyword-stays-legal', 'keyword-is-respelled', 'raw-form-only-if-legal')},
+                           ('raw-form-only-if-legal', 'must_escape(field_name@) && res@ == "r#"@ + field_name@ ==> !not_raw_able(field_name@)'),
+                           ('identifier-stays-legal', 'identish(field_name@) ==> respelled_ok(field_name@, res@)')],
+                  origin={k: 'property' for k in ('result-never-a-keyword', 'non-keyword-unchanged', 'weak-keyword-stays-legal', 'keyword-is-respelled', 'raw-form-only-if-legal', 'identifier-stays-legal')},
                   inserts=[{'at': '{', 'occurrence': 0, 'where': 'after', 'text': '        ' + reveal}], probe=probe)
         fn2 = G.top(rel, 'fn', 'as_field_name')
         splice_fn(out, fn2, SRC + rel, 'field::as_field_name',
                   ensures=[('field-name-never-a-keyword', '!must_escape(res@)')], origin={'field-name-never-a-keyword': 'property'}, probe=probe)
+        self.emit_sanitisers(out, G, reveal, probe)
         out.spec('}\n' + TAIL)
         return out
+
+    def emit_sanitisers(self, out, G, reveal, probe):
+        """C14, injection half: the two functions that turn schema text into an identifier are under contract (round 11).
+        str::Chars adapters and format! are PRESENTED through the stand-ins of std_prelude.rs `stdspec-present-chars` (each
+        occurrence is recorded); the closures keep their tokens and get a postcondition that Verus proves from their body."""
+        from .x import UnitX
+        # a lost anchor in one sanitiser must not blind the keyword proof: the function is then declared with its contract and its clauses
+        # are undecided (decided by the replay k_replay.search_sanitisers, else exit 2) - same rule as units X / XR
+        sp = lambda *a, **kw: UnitX._splice(self, out, *a, **kw)
+        NOTE = 'assumed meaning of the std expression, see std_prelude.rs stdspec-present-chars'
+        from ..rustlex import match_close, _next_sig, parse_items
+        from .d import nested_fn_text
+
+        def call_args(fn, method):
+            """source text between the parentheses of the first `.method(` call of fn (located on the token stream)"""
+            toks = fn.toks
+            for k in range(fn.open, fn.last):
+                if toks[k].kind == 'ident' and toks[k].text == method and toks[_next_sig(toks, k + 1)].text == '(':
+                    o = _next_sig(toks, k + 1)
+                    return fn.src[toks[o].end:toks[match_close(toks, o)].start].strip()
+            raise AnchorLost(f'{fn.name}: no call of .{method}(..)')
+
+        def closure_param(text):
+            m = re.match(r'\|\s*(\w+)\s*\|', text)
+            if not m:
+                raise AnchorLost(f'closure with a plain parameter expected, found {text[:40]!r}')
+            return m.group(1)
+
+        # ---- service.rs::service_type_name: the service struct's name.  Local and parameter names are read from the source,
+        # closures are taken in their full extent, so renamed locals or a re-worded predicate keep the anchors.
+        rel = 'model/soap/service.rs'
+        FID1 = 'soap::service::service_type_name'
+        try:
+            fn = G.top(rel, 'fn', 'service_type_name')
+            body = fn.src[fn.toks[fn.open].start:fn.toks[fn.last].end]
+            m = re.search(r'let\s+(\w+)\s*:\s*String\s*=\s*(\w+)\s*\.chars\(\)\s*\.filter\(', body)
+            if not m:
+                raise AnchorLost('service_type_name: `let X: String = NAME.chars().filter(` not found')
+            loc, par = m.group(1), m.group(2)
+            keep = call_args(fn, 'filter')
+            args = call_args(fn, 'map_or')
+            digit = args.split(',', 1)[1].strip()
+            c1, c2 = closure_param(keep), closure_param(digit)
+            fmt = f'format!("_{{{loc}}}")'
+            lits = sorted({'"_"', '"r#"'} | set(string_literals(fn)))
+            rv = reveal[:-2] + ' ' + ' '.join(f'reveal_strlit({l});' for l in lits if l not in reveal and '{' not in l) + ' }'
+            sp(fn, SRC + rel, FID1, probe=probe, sink='\0',
+               ensures=[('service-name-is-a-legal-identifier', 'legal_ident(res@)')],
+               origin={'service-name-is-a-legal-identifier': 'property'},
+               opaque=[{'at': f'{par}.chars().filter(', 'call': f'chars_filter_collect({par}, ', 'type': 'String', 'flex': True, 'note': NOTE},
+                       {'at': ').collect();', 'call': ');', 'type': 'String', 'flex': True, 'note': 'closing parenthesis of the presented `chars().filter(..).collect()`'},
+                       {'at': f'{loc}.chars().next()', 'call': f'first_char(&{loc})', 'type': 'Option<char>', 'flex': True, 'note': NOTE},
+                       {'at': fmt, 'call': f'fmt_prefix("_", &{loc})', 'type': 'String', 'note': NOTE}],
+               closures=[{'at': keep, 'ensures': f'b ==> ident_char(*{c1})'},
+                         {'at': digit, 'ensures': f'!b ==> !ascii_digit({c2})'}],
+               inserts=[{'at': '{', 'occurrence': 0, 'where': 'after', 'text': '        ' + rv},
+                        {'at': fmt, 'text': f'        proof {{ assert(ident_only("_"@ + {loc}@)); assert(("_"@ + {loc}@)[0] == \'_\'); }}'},
+                        {'at': f'rename_keywords(&{loc})', 'text': f'        proof {{ assert({loc}@.len() > 0 && {loc}@ != "_"@ ==> identish({loc}@)); }}'}])
+        except AnchorLost as e:
+            if not any(l[0] == FID1 for l in self.lost):
+                self.lost.append((FID1, [FID1 + '#service-name-is-a-legal-identifier'], str(e)))
+        # ---- doc.rs::make_abbreviated_namespace::take_three_chars_max (nested fn): the stem of every prefix / module name
+        rel = 'model/doc.rs'
+        FID = 'doc::make_abbreviated_namespace::take_three_chars_max'
+        try:
+            outer = G.top(rel, 'fn', 'make_abbreviated_namespace')
+            text = nested_fn_text(outer, 'take_three_chars_max')
+            line0 = outer.line_of(outer.src.index(text, outer.start))
+            its = [i for i in parse_items('\n' * (line0 - 1) + '    ' + text) if i.kind == 'fn']
+            if len(its) != 1:
+                raise AnchorLost('nested fn take_three_chars_max not parsed')
+            it = its[0]
+            body = it.src[it.toks[it.open].start:it.toks[it.last].end]
+            m = re.search(r'(\w+)\s*\.chars\(\)\s*\.filter\(', body)
+            m2 = re.search(r'\)\s*\.take\((\d+)\)\s*\.collect\(\)', body)
+            if not m or not m2:
+                raise AnchorLost('take_three_chars_max: `X.chars().filter(..).take(N).collect()` not found')
+            par, n = m.group(1), m2.group(1)
+            keep = call_args(it, 'filter')
+            sp(it, SRC + rel, FID, probe=probe, sink='\0',
+               ensures=[('stem-is-identifier-characters', 'ident_only(res@)'), ('stem-is-short', f'res@.len() <= {n}')],
+               origin={'stem-is-identifier-characters': 'property', 'stem-is-short': 'helper'},
+               opaque=[{'at': f'{par} .chars() .filter(', 'call': f'chars_filter_take_collect({par}, ', 'type': 'String', 'flex': True, 'note': NOTE},
+                       {'at': f') .take({n}) .collect()', 'call': f', {n})', 'type': 'String', 'flex': True, 'note': 'tail of the presented `chars().filter(..).take(N).collect()`'}],
+               closures=[{'at': keep, 'ensures': f'b ==> ident_char(*{closure_param(keep)})'}])
+        except AnchorLost as e:
+            if not any(l[0] == FID for l in self.lost):
+                self.lost.append((FID, [FID + '#stem-is-identifier-characters'], str(e)))
 
     def props_of(self, ob):
         return ['C14', 'C13'] if ob.endswith('#safety') else ['C14']
